@@ -44,13 +44,16 @@ def _key(rec):
 
 
 def _validate(rep, trace, rounds, what):
-    """Validate all records; enumerate rejected records over a few rounds (a
-    shard stops at its first rejection) so that a known finding cannot mask a
-    new violation."""
+    """Validate all records.  A shard stops at its first rejection; when known
+    findings exist for this property the rejected records are removed and the
+    rest validated again (a few rounds), so that a finding cannot mask a new
+    violation."""
     total = vlib.count_lines(trace)
     wall = 0.0
     rejected = []
     cur = trace
+    if not rep.findings:
+        rounds = 1      # nothing can be masked: the first rejections decide
     for rnd in range(rounds):
         ok, info = vlib.validate_trace_sharded("Trace_InputLoop", cur, shards=8, timeout=1800)
         wall += info.get("wall", 0.0)
@@ -61,10 +64,13 @@ def _validate(rep, trace, rounds, what):
             if not f.get("record"):
                 raise vlib.ToolError(f"trace rejected without a record: {str(f)[:800]}")
             bad.add(f["record"])
-        for b in bad:
+        for b in sorted(bad):
             rec = json.loads(b)
             rejected.append(rec)
             rep.violation(_key(rec), f"{what}: observation is not a behaviour of InputLoop", rec)
+        if rnd + 1 == rounds:
+            vlib.log(f"[p3] more rejected records may exist (enumeration stopped after {rounds} round(s))")
+            break
         nxt = trace + f".round{rnd + 1}"
         with open(cur) as fi, open(nxt, "w") as fo:
             for line in fi:
@@ -73,8 +79,6 @@ def _validate(rep, trace, rounds, what):
         if cur != trace:
             os.remove(cur)
         cur = nxt
-    else:
-        vlib.log(f"[p3] more rejected records may exist (enumeration stopped after {rounds} rounds)")
     if cur != trace and os.path.exists(cur):
         os.remove(cur)
     return {"events": total, "wall": wall, "rejected": rejected}
@@ -111,17 +115,17 @@ def run(tier):
     with open(cat) as fi, open(run_cat, "w") as fo:
         for line in fi:
             e = json.loads(line)
+            fo.write(line)
             if e["skip"]:
                 n_skip += 1
                 continue
             n_in += 1
             n_err += 1 if e["err"] else 0
             n_nontrivial += 1 if (e["trace"] or e["err"]) else 0
-            fo.write(line)
     os.remove(cat)
     if n_in == 0:
         raise vlib.ToolError("empty scenario catalogue")
-    vlib.log(f"[cat] {n_in} scenarios in the family ({n_err} with a syntax error), {n_skip} outside (not run)")
+    vlib.log(f"[cat] {n_in} scenarios in the family ({n_err} with a syntax error), {n_skip} leaving it (run; only the events before the offending line are judged)")
 
     # P3: the real shell
     rec = os.path.join(wd, "records.ndjson")
@@ -162,7 +166,7 @@ def run(tier):
         "configs": [T["cat_cfg"], T["chunk_cfg"]],
         "catalogue_scenarios_run": n_in,
         "catalogue_scenarios_with_syntax_error": n_err,
-        "catalogue_scenarios_outside_family_not_run": n_skip,
+        "catalogue_scenarios_leaving_family_prefix_checked": n_skip,
         "harness": hstats,
         "records_rejected": len(info["rejected"]),
         "tlc_action_coverage": cov,
